@@ -149,9 +149,10 @@ def mon_c07(run):
     whole = F.valid_response(req, run['script'].payload_fn) if req else b''
     if req and req['kind'] == 'tcp' and spec.get('mbap'): whole = F.apply_mbap(whole, spec['mbap'])
     delay_ms = int(spec.get('delay', sc.get('timeout', 1) / 4) * 1000)
-    if spec.get('second', 'exact') == 'exact' and spec['frag'] >= hdr and spec['frag'] < len(whole) and delay_ms < T:
+    first_ms = int(spec.get('first', 0) * 1000)
+    if spec.get('second', 'exact') == 'exact' and spec['frag'] >= hdr and spec['frag'] < len(whole) and delay_ms < T and first_ms < T:
         if out[0] != 'ok' or out[1] != whole or len(r['sends']) != 1:
-            v.append(('reassembly', f'frame split at {spec["frag"]} (second piece {delay_ms} ms later): {len(r["sends"])} transmissions, outcome {out[0]} '
+            v.append(('reassembly', f'frame split at {spec["frag"]} (first piece {first_ms} ms after the transmission, second piece {delay_ms} ms later): {len(r["sends"])} transmissions, outcome {out[0]} '
                                     f'{out[1].hex() if out[0] == "ok" else repr(out[1])}, expected the unsplit frame {whole.hex()} after one transmission'))
     if out[0] == 'ok':
         # whatever was delivered must be a valid answer built only from data received for the transmission that it answers
